@@ -1,4 +1,18 @@
-/- Driver.C13 — stream `C13` (stub: replaced when the property's model is built). -/
+/-
+  Driver.C13 — stream `C13`: payload = token list of one document; observation = what
+  `ValidatingAdvancedHTMLParser.parseStr` shows (exception class, or the document) next to what the plain
+  parser builds from the same tokens.
+-/
+import Driver.TokIO
 namespace Driver.C13
-def run (_payload : String) : String := "unimplemented"
+open AHP AHP.Sexp Driver.TokIO
+
+def run (payload : String) : String :=
+  match Sexp.parse payload with
+  | some s =>
+    match toTokens? s with
+    | some toks => (Sexp.list [feedSx (vFeedTokens toks), feedSx (feedTokens toks)]).render
+    | none => "bad-case"
+  | none => "bad-case"
+
 end Driver.C13
